@@ -141,28 +141,29 @@ theorem le_foldl_max (l : List Nat) : ∀ (a x : Nat), (x ∈ l ∨ x ≤ a) →
       · left; exact h
     · right; exact Nat.le_trans h (Nat.le_max_left _ _)
 
-/-- **After Close has returned.** No candidate is left, and no unit of the last cycle (the one Close
-waits for) is left — neither of its first pass nor of a re-gather pass of its monitor (continual gathering):
-whatever is still parked belongs to a cycle that an earlier Restart superseded, and its deadline has not passed
-yet.  (`g` = the state after the gate of the fake mux was opened, which is how the harness closes.  Repaired
-code: without finding C09-G11, see the witness below.) -/
-theorem C09_zero_after_close (s : MState) (hp : Parked s) (h11 : s.cfg.has 11 = false) :
-    let g := openGate s
+/-- **After Close has returned.** No candidate is left and NO unit is left — neither of the last cycle (first pass
+or a re-gather pass of its monitor, continual gathering) nor of a cycle that an earlier Restart superseded and that
+has not wound down yet: Close waits for the gatherers of every cycle.  (Repaired code: without findings C09-G11 and
+C09-G12, see the witnesses below.  `closeAgent` opens the gate of the fake mux first, which is how the harness closes.) -/
+theorem C09_zero_after_close (s : MState) (hp : Parked s) (h11 : s.cfg.has 11 = false) (h12 : s.cfg.has 12 = false) :
     let s' := closeAgent s
-    s'.cands = [] ∧ s'.mon = none
-      ∧ ∀ j ∈ s'.jobs, j ∈ g.jobs ∧ j.cyc ≠ g.cyc.cycles.length - 1 ∧ s'.now < j.deadline := by
-  intro g s'
+    s'.cands = [] ∧ s'.mon = none ∧ s'.jobs = [] := by
+  intro s'
+  let g := openGate s
   have hg : Parked g := openGate_parked hp
   have hcfg : g.cfg.has 11 = false := by
     show (openGate s).cfg.has 11 = false
     rw [(openGate_fr s).cfg]; exact h11
+  have hcfg12 : g.cfg.has 12 = false := by
+    show (openGate s).cfg.has 12 = false
+    rw [(openGate_fr s).cfg]; exact h12
   -- unfold closeAgent step by step
   let s1 : MState := { g with cyc := (Cycle.step false g.cyc .close).1, mon := none }
   let pick1 : Job → Option (Ans × Nat) := fun j => if isStunJob j &&
       ((g.cyc.cycles[j.cyc]?).map (fun c => !c.cancelled)).getD false then some (.fail, 0) else none
   let s2 := resume s1 pick1
   let cur := g.cyc.cycles.length - 1
-  let dl := closeDeadline s2 (g.cfg.has 11 && g.mon.isSome) cur
+  let dl := closeDeadline s2 (g.cfg.has 11 && g.mon.isSome) cur (g.cfg.has 12)
   let s3 := closeWait s2 dl
   let pick2 : Job → Option (Ans × Nat) := fun j => if j.deadline ≤ s3.now then some (.fail, 0) else none
   have hs' : s' = dropCands (resume s3 pick2) := rfl
@@ -172,9 +173,10 @@ theorem C09_zero_after_close (s : MState) (hp : Parked s) (h11 : s.cfg.has 11 = 
   have hj3 : s3.jobs = s2.jobs := by
     show (closeWait s2 dl).jobs = s2.jobs
     unfold closeWait; split <;> rfl
-  have hdl : dl = ((s2.jobs.filter (fun j => j.cyc == cur)).map (·.deadline)).foldl max 0 := by
-    show closeDeadline s2 (g.cfg.has 11 && g.mon.isSome) cur = _
-    simp [closeDeadline, hcfg]
+  have hdl : dl = (s2.jobs.map (·.deadline)).foldl max 0 := by
+    show closeDeadline s2 (g.cfg.has 11 && g.mon.isSome) cur (g.cfg.has 12) = _
+    have hf : s2.jobs.filter (fun _ => true) = s2.jobs := List.filter_eq_self.2 (fun _ _ => rfl)
+    simp [closeDeadline, hcfg, hcfg12, hf]
   have hnow : dl ≤ s3.now := by
     show dl ≤ (closeWait s2 dl).now
     unfold closeWait
@@ -192,6 +194,7 @@ theorem C09_zero_after_close (s : MState) (hp : Parked s) (h11 : s.cfg.has 11 = 
       · exact m2
     exact resume_mon_none s3 pick2 m3
   refine ⟨rfl, hmon, ?_⟩
+  apply List.eq_nil_iff_forall_not_mem.2
   intro j hj
   rw [hs', dropCands_jobs, resume_jobs h3, hj3] at hj
   simp only [List.mem_filter] at hj
@@ -201,23 +204,13 @@ theorem C09_zero_after_close (s : MState) (hp : Parked s) (h11 : s.cfg.has 11 = 
     split at hpk
     · simp at hpk
     · omega
-  have hjg : j ∈ g.jobs := by
-    rw [resume_jobs h1] at hj2
-    exact (List.mem_filter.1 hj2).1
-  refine ⟨hjg, ?_, ?_⟩
-  · intro hc
-    have : j.deadline ≤ dl := by
-      rw [hdl]
-      apply le_foldl_max
-      left
-      simp only [List.mem_map, List.mem_filter]
-      exact ⟨j, ⟨hj2, by simpa using hc⟩, rfl⟩
-    omega
-  · have : s'.now = s3.now := by
-      rw [hs']
-      show (resume s3 pick2).now = s3.now
-      exact (resume_fr s3 pick2).now
-    omega
+  have : j.deadline ≤ dl := by
+    rw [hdl]
+    apply le_foldl_max
+    left
+    simp only [List.mem_map]
+    exact ⟨j, hj2, rfl⟩
+  omega
 where
   /-- the gatherers never start a monitor -/
   exec_mon (p : Prog) : ∀ (s : MState) (j : Job), (exec s j p).1.mon = s.mon := by
@@ -276,6 +269,41 @@ theorem C09_zero_after_close_G11_witness :
   have hex : (closeAgent g11State).jobs.any (fun j => j.cyc == (openGate g11State).cyc.cycles.length - 1) = true := by decide
   obtain ⟨j, hj, hc⟩ := List.any_eq_true.1 hex
   exact this j hj (by simpa using hc)
+
+/-- a relay agent (gather-once): the first cycle's TURN allocation is still parked when Restart supersedes the cycle;
+the second cycle's allocation is answered and the cycle completes -/
+def g12With (quirks : List Nat) : MState :=
+  match newAgent { candTypes := [.relay], netTypes := [.udp4], turnUrls := 1, quirks := quirks }
+      [{ name := 0, up := true, loopback := false, addrs := [⟨.g4, 1⟩] }] with
+  | .ok s0 =>
+    let s1 := (step s0 .gather).1
+    let s2 := (step s1 .restart).1
+    let s3 := (step s2 .gather).1
+    -- what `step s3 (.turnreply 1 true 1)` computes, written without `sortedJobs` (a merge sort the kernel does not
+    -- unfold): the allocation of the second cycle (cycle 1) is answered
+    monKick (finishCycle (resume s3 (fun x => if x.cyc == 1 then some (.ok, 1) else none)))
+  | .error _ => {}
+
+/-- the code with finding C09-G12 (Close waits for the LAST gathering cycle only): after `closeAgent` the TURN unit of
+the superseded first cycle is still parked, with its socket and TURN client open, and its goroutine running -/
+theorem C09_zero_after_close_G12_witness :
+    ¬ (∀ s : MState, Parked s → s.cfg.has 11 = false → (closeAgent s).jobs = []) := by
+  intro h
+  have hp : Parked (g12With [12]) := by
+    intro j hj
+    have : (g12With [12]).jobs.all (fun j => j.prog.parked) = true := by decide
+    exact List.all_eq_true.1 this j hj
+  have := h (g12With [12]) hp (by decide)
+  have hex : (closeAgent (g12With [12])).jobs.length = 1 := by decide
+  rw [this] at hex
+  exact absurd hex (by decide)
+
+/-- the repaired code on the same history: Close waits 8 s (the allocation's timeout) and everything is released -/
+example : ((g12With []).opens, (g12With []).closes, (g12With []).jobs.length, (g12With []).now) = (5, 0, 1, 0) := by decide
+example : ((closeAgent (g12With [])).opens, (closeAgent (g12With [])).closes, (closeAgent (g12With [])).jobs.length,
+    (closeAgent (g12With [])).now) = (5, 5, 0, 8000) := by decide
+example : ((closeAgent (g12With [12])).opens, (closeAgent (g12With [12])).closes, (closeAgent (g12With [12])).jobs.length,
+    (closeAgent (g12With [12])).now) = (5, 3, 1, 0) := by decide
 
 /-- **After Restart, once the superseded cycle has wound down.** After the virtual clock has been advanced,
 every unit still parked times out strictly later: a unit whose deadline has passed is gone (each answered unit
